@@ -449,3 +449,271 @@ def inline_module(tree, only=None):
 
 def callee_of_log(line):
     return line.split(": inlined ", 1)[1].split(" at line")[0]
+
+
+# ====================================================================== temporaries
+#
+# `one = self.R.one`, `zero = self.R.zero`, `head, body = r.head, r.body`, `w = s.w * r.w`, `p = 1 / K`, `Y = Ys[0]`: maintainers
+# introduce and remove such single-assignment locals all the time.  A rule that compares slots as text sees different text.
+# `inline_temporaries` substitutes every *read* of such a local by its defining expression, on a copy of the tree, when that
+# is semantics-preserving:
+#   * the name is bound exactly once in its function (plain `t = v` or one position of a tuple = tuple assignment), is not a
+#     parameter, loop/with/except/comprehension target, global/nonlocal, and is not augmented;
+#   * v is a formula (walk._inlinable: attribute/subscript chains, arithmetic, comparisons, tuples, value builtins, local
+#     one-expression helpers) - never the result of a method call or a freshly allocated container (those denote objects);
+#   * v is stable: no name occurring in v is re-bound anywhere in the function except before the definition in straight-line
+#     order at function level, no attribute / subscript text occurring in v is stored to anywhere in the function, and none of
+#     the containers subscripted in v is mutated by a method call (`x.add/append/update/...`) in the function;
+#   * every read comes after the definition in the same function (reads inside nested functions are left alone).
+# The assignment statement itself stays (dead), so statement-shaped rules still see it.
+
+
+_MUTATORS = {"add", "append", "extend", "update", "pop", "remove", "clear", "insert", "discard", "setdefault", "popitem", "sort", "reverse",
+             "add_arc", "add_I", "add_F", "set_arc", "set_I", "set_F"}
+
+
+def _stmt_list_of(st):
+    p = getattr(st, "_parent", None)
+    for fld in ("body", "orelse", "finalbody"):
+        lst = getattr(p, fld, None)
+        if isinstance(lst, list) and any(x is st for x in lst):
+            return lst
+    for h in getattr(p, "handlers", []) or []:
+        if any(x is st for x in h.body):
+            return h.body
+    return None
+
+
+def _bindings(fn):
+    """name -> list of (stmt, value) for plain single-target assignments; names bound in any other way map to None"""
+    from . import walk as W
+
+    out = {}
+    bad = set()
+    a = fn.args
+    for x in a.posonlyargs + a.args + a.kwonlyargs:
+        bad.add(x.arg)
+    for x in (a.vararg, a.kwarg):
+        if x is not None:
+            bad.add(x.arg)
+    for n in ast.walk(fn):
+        if isinstance(n, (ast.Nonlocal, ast.Global)):
+            bad.update(n.names)
+    plain_targets = set()
+    for n in W.own_nodes(fn):
+        if isinstance(n, ast.Assign) and len(n.targets) == 1:
+            t = n.targets[0]
+            if isinstance(t, ast.Name):
+                out.setdefault(t.id, []).append((n, n.value))
+                plain_targets.add(id(t))
+            elif isinstance(t, (ast.Tuple, ast.List)) and isinstance(n.value, (ast.Tuple, ast.List)) and len(t.elts) == len(n.value.elts) \
+                    and all(isinstance(e, ast.Name) for e in t.elts) and not any(isinstance(e, ast.Starred) for e in n.value.elts):
+                tn = {e.id for e in t.elts}
+                if not any(isinstance(x, ast.Name) and x.id in tn for v in n.value.elts for x in ast.walk(v)):
+                    for te, ve in zip(t.elts, n.value.elts):
+                        out.setdefault(te.id, []).append((n, ve))
+                        plain_targets.add(id(te))
+    for n in W.own_nodes(fn):
+        if isinstance(n, ast.Name) and isinstance(n.ctx, (ast.Store, ast.Del)) and id(n) not in plain_targets:
+            bad.add(n.id)
+        if isinstance(n, (ast.FunctionDef, ast.AsyncFunctionDef, ast.ClassDef)) and n is not fn:
+            bad.add(n.name)
+    for nm in bad:
+        out[nm] = None
+    out["self"] = None
+    return out
+
+
+def _stable_formula(fn, st, v, ctx):
+    """is `v` (defined at statement st) a formula whose value cannot change while the function runs?  ctx: precomputed store/mutation sets"""
+    from . import walk as W
+
+    own, stored_text, mutated = ctx
+    if not W._inlinable(fn, v):
+        return False
+    # a name shared with other activations (nonlocal / global: a counter bumped by a recursive call) is not a formula
+    shared = set()
+    top = fn
+    while getattr(top, "_parent", None) is not None and not isinstance(top, ast.Module):
+        top = top._parent
+        if isinstance(top, (ast.FunctionDef, ast.AsyncFunctionDef)):
+            break
+    for scope in (fn, top):
+        for n in ast.walk(scope):
+            if isinstance(n, (ast.Nonlocal, ast.Global)):
+                shared.update(n.names)
+    if any(isinstance(x, ast.Name) and x.id in shared for x in ast.walk(v)):
+        return False
+    if isinstance(v, ast.Call):
+        # value builtins over stable, unmutated operands only (len(x), abs(x), ...)
+        if not (isinstance(v.func, ast.Name) and v.func.id in ("len", "abs", "min", "max", "bool", "int", "float", "str", "tuple", "frozenset") and not v.keywords):
+            return False
+        for a_ in v.args:
+            if not isinstance(a_, (ast.Name, ast.Attribute, ast.Constant)):
+                return False
+            if ast.unparse(a_) in mutated | stored_text:
+                return False
+    for x in ast.walk(v):
+        if isinstance(x, (ast.Attribute, ast.Subscript)) and ast.unparse(x) in stored_text:
+            return False
+        if isinstance(x, ast.Subscript) and ast.unparse(x.value) in mutated | stored_text:
+            return False
+        if isinstance(x, (ast.Lambda, ast.GeneratorExp, ast.ListComp, ast.SetComp, ast.DictComp, ast.Await, ast.Yield, ast.YieldFrom, ast.NamedExpr, ast.Starred)):
+            return False
+        if isinstance(x, ast.Call) and x is not v:
+            return False
+        if isinstance(x, ast.Subscript):
+            # an element read is stable only if nothing called after the definition can reach the container
+            root = x.value
+            while isinstance(root, (ast.Attribute, ast.Subscript)):
+                root = root.value
+            roots = {root.id} if isinstance(root, ast.Name) else set()
+            for _ in range(3):
+                for b in own:
+                    if isinstance(b, ast.Assign) and len(b.targets) == 1 and isinstance(b.targets[0], ast.Name) and b.targets[0].id in roots:
+                        r0 = b.value
+                        while isinstance(r0, (ast.Attribute, ast.Subscript)):
+                            r0 = r0.value
+                        if isinstance(r0, ast.Name):
+                            roots.add(r0.id)
+            for c in own:
+                if isinstance(c, ast.Call) and W.pos(c) > W.pos(st):
+                    argroots = set()
+                    for a_ in list(c.args) + [k.value for k in c.keywords]:
+                        for r1 in ast.walk(a_):
+                            if isinstance(r1, ast.Name) and isinstance(r1.ctx, ast.Load):
+                                par = getattr(r1, "_parent", None)
+                                top = r1
+                                while isinstance(par, ast.Attribute) and par.value is top:
+                                    top, par = par, getattr(par, "_parent", None)
+                                if isinstance(par, ast.Subscript) and par.value is top:
+                                    continue
+                                argroots.add(r1.id)
+                    if isinstance(c.func, ast.Attribute) and c.func.attr not in ("get", "items", "keys", "values", "copy", "index", "count"):
+                        r1 = c.func.value
+                        while isinstance(r1, (ast.Attribute, ast.Subscript)):
+                            r1 = r1.value
+                        if isinstance(r1, ast.Name) and r1.id != "self":
+                            argroots.add(r1.id)
+                        if isinstance(r1, ast.Name) and r1.id == "self" and "self" in roots and c.func.attr not in ("is_terminal", "is_nonterminal"):
+                            argroots.add("self")
+                    if roots & argroots:
+                        return False
+    return True
+
+
+def inline_temporaries(tree):
+    """in-place; returns a log of the substitutions performed"""
+    from .model import set_parents
+    from . import walk as W
+
+    set_parents(tree)
+    log = []
+    funcs = [n for n in ast.walk(tree) if isinstance(n, (ast.FunctionDef, ast.AsyncFunctionDef))]
+    for fn in funcs:
+        for _round in range(3):  # temporaries defined from temporaries
+            binds = _bindings(fn)
+            if not any(v for v in binds.values()):
+                break
+            own = list(W.own_nodes(fn))
+            stored_text, mutated = set(), set()
+            for n in ast.walk(fn):
+                if isinstance(n, (ast.Attribute, ast.Subscript)) and isinstance(n.ctx, (ast.Store, ast.Del)):
+                    stored_text.add(ast.unparse(n))
+                    stored_text.add(ast.unparse(n.value))
+                if isinstance(n, ast.AugAssign) and isinstance(n.target, (ast.Attribute, ast.Subscript)):
+                    stored_text.add(ast.unparse(n.target))
+                    stored_text.add(ast.unparse(n.target.value))
+                if isinstance(n, ast.Call) and isinstance(n.func, ast.Attribute) and n.func.attr in _MUTATORS:
+                    mutated.add(ast.unparse(n.func.value))
+            ctx = (own, stored_text, mutated)
+            stable = {}
+            changed = 0
+            names = set()
+
+            def pick(node):
+                bs = binds.get(node.id)
+                if not bs:
+                    return None
+                cands = []
+                for st, v in bs:
+                    if not (W.end_pos(st) < W.pos(node)):
+                        continue
+                    lst = _stmt_list_of(st)
+                    if lst is None:
+                        continue
+                    # structural dominance: an ancestor-or-self statement of the read sits in the same statement list, after st
+                    x = node
+                    dom = False
+                    while x is not None and x is not fn:
+                        if any(y is x for y in lst):
+                            dom = True
+                            break
+                        x = getattr(x, "_parent", None)
+                    if dom:
+                        cands.append((st, v))
+                if not cands:
+                    return None
+                st, v = max(cands, key=lambda sv: W.pos(sv[0]))
+                # no other binding of the name between st and the read; none inside a loop that encloses the read but not st
+                for st2, _ in bs:
+                    if st2 is not st and W.pos(st) < W.pos(st2) < W.pos(node):
+                        return None
+                dl = W.enclosing_loops(st)
+                rl = W.enclosing_loops(node)
+                if not all(any(a is b for b in rl) for a in dl):
+                    return None
+                extra = [a for a in rl if not any(a is b for b in dl)]
+                for st2, _ in bs:
+                    if st2 is not st and any(W._within(st2, a) for a in extra):
+                        return None
+                key = id(st), node.id
+                if key not in stable:
+                    stable[key] = _stable_formula(fn, st, v, ctx)
+                if not stable[key]:
+                    return None
+                vn = {x.id for x in ast.walk(v) if isinstance(x, ast.Name)}
+                if node.id in vn:
+                    return None
+                between = any(isinstance(b, ast.Name) and b.id in vn and isinstance(b.ctx, (ast.Store, ast.Del))
+                              and W.end_pos(st) < W.pos(b) < W.pos(node) for b in own)
+                inloop = any(isinstance(b, ast.Name) and b.id in vn and isinstance(b.ctx, (ast.Store, ast.Del)) for a in extra for b in ast.walk(a))
+                if between or inloop:
+                    return None
+                return v
+
+            class T(ast.NodeTransformer):
+                def visit_FunctionDef(self, node):
+                    if node is fn:
+                        return self.generic_visit(node)
+                    return node  # reads inside nested functions are left alone
+
+                visit_AsyncFunctionDef = visit_FunctionDef
+
+                def visit_Lambda(self, node):
+                    return node
+
+                def visit_Name(self, node):
+                    nonlocal changed
+                    if isinstance(node.ctx, ast.Load):
+                        v = pick(node)
+                        if v is not None:
+                            changed += 1
+                            names.add(node.id)
+                            new = ast.parse(ast.unparse(v), mode="eval").body  # a fresh copy without parent links
+                            return ast.copy_location(new, node)
+                    return node
+
+            T().visit(fn)
+            if not changed:
+                break
+            log.append(f"{fn.name}: {changed} read(s) of {sorted(names)[:8]} replaced by their definitions")
+            ast.fix_missing_locations(fn)
+            set_parents(tree)
+    return log
+
+
+def inline_both(tree, only=None):
+    log = inline_module(tree, only)
+    log2 = inline_temporaries(tree)
+    return log + log2
